@@ -255,9 +255,10 @@ def commit_failure(case: int, mv: int, sv: int) -> str:
     """
     The commit itself fails: 0 a pre_commit_handler raises, 1 a context state handed to add_state carries a handle that
     already exists (the unique index rejects it while the tables are being updated), 2 a context state is deleted through the
-    entity interface (write_entity with a handle removed from entity.states) together with an update of another state.
+    entity interface (write_entity with a handle removed from entity.states) together with an update of another state,
+    3 the same deletion through a DESCRIPTOR transaction (write_entity of the multi-state entity) together with a descriptor update.
     If the commit raises, nothing may have changed; if it succeeds, it must have been applied completely.
-    pre: 0 <= case <= 2
+    pre: 0 <= case <= 3
     pre: mv >= 0
     pre: sv >= 0
     post: __return__ == 'ok'
@@ -282,6 +283,13 @@ def commit_failure(case: int, mv: int, sv: int) -> str:
                     dup = k.mk_context_state(pm, pm.descriptions.handle.get_one('lc0'), 'lcs0', CA.NO_ASSOCIATION)
                     dup.descriptor_container = None
                     tr.add_state(dup)
+            elif case == 3:
+                ent = pm.entities.by_handle('lc0')
+                del ent.states['lcs0']
+                ent.descriptor.SafetyClassification = pm_types.SafetyClassification.MED_A
+                with pm.descriptor_transaction() as tr:
+                    tr.get_descriptor('m0').SafetyClassification = pm_types.SafetyClassification.MED_B
+                    tr.write_entity(ent)
             else:
                 ent = pm.entities.by_handle('lc0')
                 del ent.states['lcs0']
@@ -299,9 +307,13 @@ def commit_failure(case: int, mv: int, sv: int) -> str:
             orc.check(after['version'][0] == mv + 1, 'commit-without-version-increment')
             orc.check(after['none_in_tables'] == (False, False, False), 'None-in-table')
             orc.check(_idx_ok(pm), 'index!=scan')
-            if case == 2:
+            if case in (2, 3):
                 orc.check('lcs0' not in after['context_states'], 'deleted-context-state-still-present')
+            if case == 2:
                 orc.check(after['context_states']['pcs0'] != before['context_states']['pcs0'], 'partial-commit')
+            if case == 3:
+                orc.check(after['descriptors']['m0'] != before['descriptors']['m0'] and
+                          after['descriptors']['lc0'] != before['descriptors']['lc0'], 'partial-commit')
     except Exception as ex:  # noqa: BLE001
         return exc_result(orc, ex)
     return orc.result()
